@@ -502,6 +502,15 @@ def store_commit_poison(ctx):
         gops.setdefault(bb, []).append(("bad_unless", "stored"))
     extra.append(PQuery("Store::poison: the store happens on every path", gcfg, gops, ["stored"], {},
                         scenario="c14_fault_sweep_rollback", key="Store::poison:returns without setting the flag"))
+    for rx, fh, nm in [(r">::is_poisoned$", "store/mod.rs", "Store::is_poisoned"), (r">::is_poisoned$", "lib.rs", "Nomt::is_poisoned")]:
+        h = _fn(prog, rx, fh)
+        hcfg = pathsmt.Cfg(h)
+        neg = [bb for bb in hcfg.order if any(re.search(r"= Not\(", st) for st in hcfg.blocks[bb].stmts)]
+        loads = [bb for bb in hcfg.order if hcfg.blocks[bb].call and re.search(r"Atomic(Bool|::<bool>)::load|is_poisoned", hcfg.blocks[bb].call[1])]
+        if not loads:
+            raise Unmatched("%s does not read the flag" % nm)
+        extra.append(PQuery("%s: reports the flag as it is (no negation)" % nm, hcfg, {bb: [("bad", None)] for bb in neg}, [], {},
+                            scenario="c14_ln_write_fails", key="%s:polarity" % nm))
     qs = extra + [PQuery("Store::commit: poisoned is checked before Sync::sync", cfg, ops, ["loaded", "synced", "stored"], {},
                  scenario="c14_ln_write_fails", key="Store::commit:sync without poison check"),
           PQuery("Store::commit: an Err from Sync::sync is returned only after poisoned was set", cfg, ops3,
@@ -1077,7 +1086,7 @@ def rollback_append_poison(ctx):
 # ---------------------------------------------------------------------------------------------
 # C14: sweep - no fallible value is dropped uninspected, in every function of the storage modules
 
-SWEEP_FILES = r"nomt/src/(store|bitbox|beatree|rollback|seglog|io)/|nomt/src/lib\.rs"
+SWEEP_FILES = r"nomt/src/(store|bitbox|beatree|rollback|seglog|io)/|nomt/src/lib\.rs|nomt/src/task\.rs"
 # values that are capability probes, not I/O on database data: an error deliberately selects the fallback
 SWEEP_EXEMPT_DEF = r"fs_check|falloc_zero_file"   # fallocate is best-effort by design: on error the file is zeroed with writes instead
 # functions decided by their own obligations with a larger budget
@@ -1316,6 +1325,15 @@ def fsyncer_order(ctx):
     qs.append(PQuery("Fsyncer::wait: waits, then returns exactly the worker's result", cfg, ops, ["waited", "taken"], {},
                      scenario="c04_commit_order", key="Fsyncer::wait:returns without the worker's result"))
     enc.add("io::fsyncer::Fsyncer::wait @ nomt/src/io/fsyncer.rs")
+
+    f = _fn(prog, r"fsyncer::<impl.*>::force_take_done$", "io/fsyncer.rs")
+    cfg = pathsmt.Cfg(f)
+    fab = [bb for bb in cfg.order if any(re.match(r"_0 = Result::<.*>::Ok\(", st) for st in cfg.blocks[bb].stmts)]
+    rets = [bb for bb in cfg.order if cfg.blocks[bb].is_return]
+    qs.append(PQuery("State::force_take_done: hands out the stored result, never a fabricated Ok", cfg, {bb: [("bad", None)] for bb in fab}, [], {},
+                     scenario="c14_fault_sweep", key="force_take_done:Ok fabricated"))
+    qs.append(PQuery("State::force_take_done: return is reachable", cfg, {bb: [("bad", None)] for bb in rets}, [], {}, expect="sat"))
+    enc.add("io::fsyncer::State::force_take_done @ nomt/src/io/fsyncer.rs")
 
     f = _fn(prog, r"^recover$", "bitbox/mod.rs")
     cfg = pathsmt.Cfg(f)
